@@ -22,7 +22,36 @@ def GrainsModel.isRandom : GrainsModel R → Bool
 def Models.NoRandom (ms : Models R) : Prop :=
   (∀ m ∈ ms.comps, m.isRandom = false) ∧ (∀ m ∈ ms.grains, m.isRandom = false)
 
-def World.NoRandom (w : World R) : Prop := ∀ f ∈ w.features, f.models.NoRandom
+/-- slabs and faults have no random models in the model (their random grains models are not modelled yet) -/
+def Feature.NoRandom : Feature R → Prop
+  | .area a => a.models.NoRandom
+  | .plume p => p.models.NoRandom
+  | .line _ => True
+
+def Hit.NoRandom : Hit R → Prop
+  | .areaLike _ ms .. => ms.NoRandom
+  | .line .. => True
+
+def World.NoRandom (w : World R) : Prop := ∀ f ∈ w.features, f.NoRandom
+
+theorem Feature.cover_noRandom (f : Feature R) (hnr : f.NoRandom) (ctx : Ctx R) (q : Query R) (hit : Hit R)
+    (h : f.cover ctx q = .ok (some hit)) : hit.NoRandom := by
+  cases f with
+  | area a =>
+    simp only [Feature.cover] at h
+    cases hc : a.covers ctx q with
+    | error e => simp [hc, Except.map] at h
+    | ok o => cases o <;> simp [hc, Except.map] at h; subst h; exact hnr
+  | plume p =>
+    simp only [Feature.cover] at h
+    cases hc : p.covers ctx q with
+    | error e => simp [hc, Except.map] at h
+    | ok o => cases o <;> simp [hc, Except.map] at h; subst h; exact hnr
+  | line l =>
+    simp only [Feature.cover] at h
+    cases hc : l.covers ctx q with
+    | error e => simp [hc, Except.map] at h
+    | ok o => cases o <;> simp [hc, Except.map] at h; subst h; trivial
 
 theorem CompModel.get_stateIndep (m : CompModel R) (h : m.isRandom = false) (ctx : Ctx R) (q : Query R) (n : Nat) (old : R) :
     StateIndep (G := G) (m.get ctx q n old) := by
@@ -73,10 +102,16 @@ theorem paintAt_stateIndep (tag : Nat) (ms : Models R) (hnr : ms.NoRandom) (ctx 
   · exact StateIndep.bind (StateIndep.liftE _) fun _ => StateIndep.pure _
   · exact StateIndep.throw _
 
+theorem Hit.paintAt_stateIndep (hit : Hit R) (hnr : hit.NoRandom) (ctx : Ctx R) (q : Query R)
+    (p : Req) (e : Nat) (out : List R) : StateIndep (G := G) (hit.paintAt ctx q p e out) := by
+  cases hit with
+  | areaLike tag ms a b r => exact Gwb.paintAt_stateIndep tag ms hnr ctx q a b r p e out
+  | line f h => exact StateIndep.liftE _
+
 /-! ### block `i` of the batched loop is the single-request loop -/
 
-theorem paintBlocks_stateIndep (tag : Nat) (ms : Models R) (hnr : ms.NoRandom) (ctx : Ctx R) (q : Query R) (fMin fMax rel : R)
-    (ps : List Req) (bs : List (List R)) : StateIndep (G := G) (paintBlocks tag ms ctx q fMin fMax rel ps bs) := by
+theorem paintBlocks_stateIndep (hit : Hit R) (hnr : hit.NoRandom) (ctx : Ctx R) (q : Query R)
+    (ps : List Req) (bs : List (List R)) : StateIndep (G := G) (paintBlocks hit ctx q ps bs) := by
   induction ps generalizing bs with
   | nil => unfold paintBlocks; exact StateIndep.pure _
   | cons p ps ih =>
@@ -84,15 +119,15 @@ theorem paintBlocks_stateIndep (tag : Nat) (ms : Models R) (hnr : ms.NoRandom) (
     | nil => unfold paintBlocks; exact StateIndep.pure _
     | cons b bs =>
       unfold paintBlocks
-      exact StateIndep.bind (paintAt_stateIndep tag ms hnr ctx q fMin fMax rel p 0 b) fun _ =>
+      exact StateIndep.bind (Hit.paintAt_stateIndep hit hnr ctx q p 0 b) fun _ =>
         StateIndep.bind (ih bs) fun _ => StateIndep.pure _
 
-theorem paintBlocks_nth (tag : Nat) (ms : Models R) (hnr : ms.NoRandom) (ctx : Ctx R) (q : Query R) (fMin fMax rel : R)
+theorem paintBlocks_nth (hit : Hit R) (hnr : hit.NoRandom) (ctx : Ctx R) (q : Query R)
     (ps : List Req) (bs bs' : List (List R)) (g g' : G)
-    (h : paintBlocks tag ms ctx q fMin fMax rel ps bs g = .ok (bs', g'))
+    (h : paintBlocks hit ctx q ps bs g = .ok (bs', g'))
     (i : Nat) (p : Req) (b : List R) (hp : ps[i]? = some p) (hb : bs[i]? = some b) :
-    g' = g ∧ ∃ b', bs'[i]? = some b' ∧ ∀ g₂ : G, paintAt tag ms ctx q fMin fMax rel p 0 b g₂ = .ok (b', g₂) := by
-  refine ⟨((paintBlocks_stateIndep (G := G) tag ms hnr ctx q fMin fMax rel ps bs).ok_any h).1, ?_⟩
+    g' = g ∧ ∃ b', bs'[i]? = some b' ∧ ∀ g₂ : G, hit.paintAt ctx q p 0 b g₂ = .ok (b', g₂) := by
+  refine ⟨((paintBlocks_stateIndep (G := G) hit hnr ctx q ps bs).ok_any h).1, ?_⟩
   induction ps generalizing bs bs' g g' i with
   | nil => simp at hp
   | cons p0 ps ih =>
@@ -100,14 +135,14 @@ theorem paintBlocks_nth (tag : Nat) (ms : Models R) (hnr : ms.NoRandom) (ctx : C
     | nil => simp at hb
     | cons b0 bs =>
       simp only [paintBlocks, QM.bind_apply] at h
-      cases h0 : paintAt tag ms ctx q fMin fMax rel p0 0 b0 g with
+      cases h0 : hit.paintAt ctx q p0 0 b0 g with
       | error e => simp [h0] at h
       | ok r0 =>
         obtain ⟨b0', g1⟩ := r0
         simp only [h0] at h
-        have hsi := (paintAt_stateIndep (G := G) tag ms hnr ctx q fMin fMax rel p0 0 b0).ok_any h0
+        have hsi := (Hit.paintAt_stateIndep (G := G) hit hnr ctx q p0 0 b0).ok_any h0
         obtain ⟨rfl, hany⟩ := hsi
-        cases h1 : paintBlocks tag ms ctx q fMin fMax rel ps bs g1 with
+        cases h1 : paintBlocks hit ctx q ps bs g1 with
         | error e => simp [h1] at h
         | ok r1 =>
           obtain ⟨bs1, g2⟩ := r1
@@ -123,7 +158,7 @@ theorem paintBlocks_nth (tag : Nat) (ms : Models R) (hnr : ms.NoRandom) (ctx : C
             obtain ⟨b', hb', hall⟩ := ih bs bs1 g1 g2 h1 i hp hb
             exact ⟨b', by simpa using hb', hall⟩
 
-theorem Feature.applyBlocks_nth (f : Feature R) (hnr : f.models.NoRandom) (ctx : Ctx R) (q : Query R)
+theorem Feature.applyBlocks_nth (f : Feature R) (hnr : f.NoRandom) (ctx : Ctx R) (q : Query R)
     (ps : List Req) (bs bs' : List (List R)) (g g' : G)
     (h : f.applyBlocks ctx q ps bs g = .ok (bs', g'))
     (i : Nat) (p : Req) (b : List R) (hp : ps[i]? = some p) (hb : bs[i]? = some b) :
@@ -137,14 +172,13 @@ theorem Feature.applyBlocks_nth (f : Feature R) (hnr : f.models.NoRandom) (ctx :
       simp only [hc, Except.ok.injEq, Prod.mk.injEq] at h
       obtain ⟨rfl, rfl⟩ := h
       exact ⟨rfl, b, hb, fun _ => rfl⟩
-    | some t =>
-      obtain ⟨a, c, r⟩ := t
+    | some hit =>
       simp only [hc] at h
-      obtain ⟨hg, b', hb', hall⟩ := paintBlocks_nth f.tag f.models hnr ctx q a c r ps bs bs' g g' h i p b hp hb
+      obtain ⟨hg, b', hb', hall⟩ := paintBlocks_nth hit (Feature.cover_noRandom f hnr ctx q hit hc) ctx q ps bs bs' g g' h i p b hp hb
       refine ⟨hg, b', hb', fun g₂ => ?_⟩
       simp only [paintBlocks, QM.bind_apply, hall g₂, QM.pure_apply]
 
-theorem featuresBlocks_nth (fs : List (Feature R)) (hnr : ∀ f ∈ fs, f.models.NoRandom) (ctx : Ctx R) (q : Query R)
+theorem featuresBlocks_nth (fs : List (Feature R)) (hnr : ∀ f ∈ fs, f.NoRandom) (ctx : Ctx R) (q : Query R)
     (ps : List Req) (bs bs' : List (List R)) (g g' : G)
     (h : featuresBlocks fs ctx q ps bs g = .ok (bs', g'))
     (i : Nat) (p : Req) (b : List R) (hp : ps[i]? = some p) (hb : bs[i]? = some b) :
